@@ -7,10 +7,15 @@
     state, filter, look-ahead state, context and store, the interpreter returns the PEG's
     verdict and value, the returned lexer delivers exactly the PEG's remaining tokens with the
     filter and recover state it had, and nothing is sent to the sink.
-    Outside the theorem (decided by correspondence + python oracle only): seq_count, end_of_text,
-    filter_with/unfiltered (abstract state changes with the filter; recorded finding of C05),
-    text/spanned (C14), repetitions (C07), and the recovering combinators. *)
-From Tephra Require Import MetricsSpec CLexer LexerFacts Run Peg RunCore.
+    Extended (PegRep / RunPeg / RunPegTotal): the specification [peg2] adds seq_count, end_of_text
+    (which see one bit beyond the tokens: whether the scan stops at the end of the text) and all
+    repetition / interspersal combinators, nested arbitrarily; on the syntactic class [wfr] the
+    specification is total and the interpreter's answer IS the specification's answer, with no
+    semantic hypothesis left ([C06_C07_exact]).
+    Outside the theorems (decided by correspondence + python oracle only): filter_with/unfiltered
+    (abstract state changes with the filter; recorded finding of C05), text/spanned (C14), and the
+    recovering combinators. *)
+From Tephra Require Import MetricsSpec CLexer LexerFacts LexerFin Run Peg PegRep RunCore RunSafe RunTerm RunPeg RunPegTotal.
 
 Theorem C06_peg_sound :
   forall m, 1 <= tabw m -> forall t, wf_text t ->
@@ -56,3 +61,68 @@ Example C06_example :
   end.
 Proof. vm_compute. repeat split. Qed.
 Print Assumptions C06_example.
+
+(** the extended specification agrees with [peg] where both are defined *)
+Theorem C06_peg2_extends_peg :
+  forall cl g, in_peg g = true -> forall s, peg2 cl g s = peg g s.
+Proof. exact peg2_peg. Qed.
+Print Assumptions C06_peg2_extends_peg.
+
+(** whatever the fuel: out of fuel, or exactly the specification's answer (incl. seq_count, end_of_text, repetitions) *)
+Theorem C06_peg2_sound :
+  forall m, 1 <= tabw m -> forall t, wf_text t ->
+  forall fuel g c lx ys st r, Inv m t lx ys -> peg2 (clean t lx ys) g (kept (c_filter lx) ys) = Some r ->
+  fst (run fuel g lx c st) = RFuel \/
+  match r with
+  | POk v s' => exists lx' ys', run fuel g lx c st = (ROk v lx', st) /\ Inv m t lx' ys'
+                  /\ c_filter lx' = c_filter lx /\ c_rec lx' = c_rec lx /\ kept (c_filter lx) ys' = s'
+                  /\ reach lx ys lx' ys'
+  | PFail => exists e, run fuel g lx c st = (RErr e, st)
+  end.
+Proof. intros m Htab t Ht fuel g c lx ys st r HI Hp. exact (run_peg2 m Htab t Ht fuel g c (clean t lx ys) lx ys st r HI eq_refl Hp). Qed.
+Print Assumptions C06_peg2_sound.
+
+(** the exact answer on the syntactic class: no semantic hypothesis, fuel above depth + bytes left + 3 *)
+Theorem C06_C07_exact :
+  forall m, 1 <= tabw m -> forall t, wf_text t ->
+  forall g, wfr g = true ->
+  forall F lx ys c st, Inv m t lx ys -> tdepth g + rem t lx + 3 <= F ->
+  exists r, peg2 (clean t lx ys) g (kept (c_filter lx) ys) = Some r /\
+  match r with
+  | POk v s' => exists lx' ys', run F g lx c st = (ROk v lx', st) /\ Inv m t lx' ys'
+                  /\ c_filter lx' = c_filter lx /\ c_rec lx' = c_rec lx /\ kept (c_filter lx) ys' = s'
+                  /\ reach lx ys lx' ys'
+  | PFail => exists e, run F g lx c st = (RErr e, st)
+  end.
+Proof. exact rep_exact. Qed.
+Print Assumptions C06_C07_exact.
+
+(** the specification is total on the class, and the class is not empty: seq_count, end_of_text, a
+    bounded interspersal nested in a counted repetition with a stop parser *)
+Theorem C06_peg2_total :
+  forall cl g, wfr g = true -> forall s, exists r, peg2 cl g s = Some r.
+Proof. exact peg2_total. Qed.
+Print Assumptions C06_peg2_total.
+
+Example C06_wfr_example :
+  wfr (GBoth (GRepeatCountUntil 0 None (GOne KSemi)
+                (GLeft (GIntersperse 1 (Some 3) (GBoth (GOne KA) (GMaybe (GOne KB))) (GOne KComma)) (GSeqCount [KC; KC])))
+             GEot) = true.
+Proof. reflexivity. Qed.
+Print Assumptions C06_wfr_example.
+
+(** end_of_text and seq_count on "a c" with whitespace dropped and on "a !" (rejected character):
+    the scan of the first ends cleanly, the second does not *)
+Example C06_eot_example :
+  let g := GBoth (GOne KA) (GBoth (GSeqCount [KC; KC]) GEot) in
+  let run_on t := match c_with_filter (c_new Plain t) (Some (FDrop [KWs])) with
+                  | Ok lx => fst (run 12 g lx (ctx_new true) (mkstore [] []))
+                  | _ => RPanic
+                  end in
+  (match run_on [Ch 1 1 1; Ch 1 1 6; Ch 1 1 3] with
+   | ROk v _ => v = VPair (VTok (mktok KA 0)) (VPair (VNat 1) VUnit)
+   | _ => False
+   end) /\
+  (match run_on [Ch 1 1 1; Ch 1 1 6; Ch 1 1 33] with RErr _ => True | _ => False end).
+Proof. vm_compute. split; [reflexivity|exact I]. Qed.
+Print Assumptions C06_eot_example.
